@@ -18,6 +18,8 @@ for _v in ("OMP_NUM_THREADS", "OPENBLAS_NUM_THREADS", "MKL_NUM_THREADS"):
     os.environ.setdefault(_v, "1")
 
 import math  # noqa: E402
+import signal  # noqa: E402
+import threading  # noqa: E402
 
 import mpmath as mp  # noqa: E402
 import numpy as np  # noqa: E402
@@ -317,44 +319,34 @@ def functional_row(j, K, tf, xe):
 
 
 # ----------------------------------------------------------------------------------------------------------------------
-# known defects of the unchanged library (signatures)
+# guard against runaway solves (a regression may make a SciPy solver loop): every contract evaluation has a time limit
 # ----------------------------------------------------------------------------------------------------------------------
-def scalar_derivative_unsupported(tf):
-    """True iff a derivative of the transform cannot be evaluated at a scalar point (raises, or does not return a scalar)."""
-    if tf is None:
+class time_limit:
+    def __init__(self, seconds):
+        self.seconds = seconds
+
+    def _raise(self, signum, frame):
+        raise TimeoutError(f"no result within {self.seconds} s (the same call takes well under a second on a correct implementation)")
+
+    def __enter__(self):
+        self.usable = hasattr(signal, "setitimer") and threading.current_thread() is threading.main_thread()
+        if self.usable:
+            self.old = signal.signal(signal.SIGALRM, self._raise)
+            signal.setitimer(signal.ITIMER_REAL, self.seconds)
+        return self
+
+    def __exit__(self, *exc):
+        if self.usable:
+            signal.setitimer(signal.ITIMER_REAL, 0)
+            signal.signal(signal.SIGALRM, self.old)
         return False
-    lo, hi = tf.domain
-    pt = float(lo + 0.37) if np.isfinite(lo) else 0.37
-    for val in (pt, np.float64(pt)):
-        for fn in (tf.deriv, tf.deriv2, tf.deriv3):
-            try:
-                if np.ndim(fn(val)) != 0:
-                    return True
-            except (AttributeError, TypeError):
-                return True
-            except Exception:  # noqa: BLE001
-                pass
-    return False
 
 
-def mark_known(col, tf=None):
-    """Re-label the last failure when it is exactly one of the recorded defects (at most 3 records are kept per defect)."""
-    rec = col.last_failure
-    if rec is None:
-        return
-    detail = str(rec.get("detail") or "")
-    slug = None
-    if tf is not None and ("has no attribute 'size'" in detail or "ImmutableDenseNDimArray" in detail) and scalar_derivative_unsupported(tf):
-        slug = ":known-transform-derivative-rejects-scalar-point"
-    elif "non-broadcastable output operand" in detail and any(f":{m}:" in rec["case_id"] for m in ("Radau", "BDF")):
-        # solve_ivp is told vectorized=True, but the system function cannot take one point with several state columns (Jacobian estimation)
-        slug = ":known-implicit-methods-not-vectorized"
-    if slug is None:
-        return
-    already = sum(1 for f in col.failures if f is not rec and f["case_id"].endswith(slug))
-    rec["case_id"] += slug
-    if already >= 3:        # the same recorded defect again: do not let it use up the collector's 60 failure slots
-        col.failures[:] = [f for f in col.failures if f is not rec]
+def limited(fn, seconds=60.0):
+    def inner():
+        with time_limit(seconds):
+            return fn()
+    return inner
 
 
 # ----------------------------------------------------------------------------------------------------------------------
@@ -442,9 +434,7 @@ def ivp_case(col, seed, order, tname, method, variant):
                 return False, (f"d^{k}y/dx^{k} {where}: returned {rows[k][i]!r}, exact solution of the stated problem {exact[i]!r} "
                                f"(error {err:.3g} > {bound:.3g})")
         return True, None
-    ok = col.check(cid, chk, inputs=inp, sample={"order": order, "transform": tname, "method": method, "variant": variant, "x_span": [x0, x1]})
-    if not ok:
-        mark_known(col, tf)
+    col.check(cid, limited(chk), inputs=inp, sample={"order": order, "transform": tname, "method": method, "variant": variant, "x_span": [x0, x1]})
     return prob, tf, xs, box.get("out"), (rtol, atol)
 
 
@@ -479,10 +469,8 @@ def ivp_cross_case(col, seed, order, tname, variant="forward"):
                 i = int(np.argmax(np.abs(ot[k] - od[k])))
                 return False, f"d^{k}y/dx^{k} at x = {xs[i]:.6g}: through the transform {ot[k][i]!r}, direct {od[k][i]!r}"
         return True, None
-    ok = col.check(f"solve_ode_ivp:transformed-vs-direct:order{order}:{tname}:{variant}", chk, inputs=inp,
-                   sample={"order": order, "transform": tname, "variant": variant})
-    if not ok:
-        mark_known(col, tf)
+    col.check(f"solve_ode_ivp:transformed-vs-direct:order{order}:{tname}:{variant}", limited(chk), inputs=inp,
+              sample={"order": order, "transform": tname, "variant": variant})
 
 
 # ----------------------------------------------------------------------------------------------------------------------
@@ -579,9 +567,7 @@ def bvp_case(col, seed, order, tname, cond_index, variant="derivs"):
                 return False, (f"d^{k}y/dx^{k} {where}: returned {rows_out[k][i]!r}, exact solution of the stated problem {exact[i]!r} "
                                f"(error {err:.3g} > {bound:.3g})")
         return True, None
-    ok = col.check(cid, chk, inputs=inp, sample={"order": order, "transform": tname, "bd_cond": [list(c) for c in bd], "variant": variant})
-    if not ok:
-        mark_known(col, tf)
+    col.check(cid, limited(chk), inputs=inp, sample={"order": order, "transform": tname, "bd_cond": [list(c) for c in bd], "variant": variant})
 
 
 # ----------------------------------------------------------------------------------------------------------------------
@@ -615,7 +601,7 @@ def validation_contracts(col, seed):
             if msg:
                 return False, msg
         return True, None
-    col.check("solve_ode_ivp:argument-validation", ivp_args)
+    col.check("solve_ode_ivp:argument-validation", limited(ivp_args))
 
     def bvp_args():
         x = np.linspace(-0.5, 0.5, 11)
@@ -625,7 +611,7 @@ def validation_contracts(col, seed):
             if msg:
                 return False, msg
         return True, None
-    col.check("solve_ode_bvp:argument-validation", bvp_args)
+    col.check("solve_ode_bvp:argument-validation", limited(bvp_args))
 
     def not_converged():
         p = Problem(rng(seed, "nonconv"), 2, 0.0, 1.0, amp=0.5)
@@ -638,7 +624,7 @@ def validation_contracts(col, seed):
             if msg:
                 return False, msg
         return True, None
-    col.check("solve_ode_bvp:non-convergence-is-reported", not_converged)
+    col.check("solve_ode_bvp:non-convergence-is-reported", limited(not_converged))
 
 
 def rhs_alias_contracts(col, seed):
@@ -689,17 +675,10 @@ def rhs_alias_contracts(col, seed):
                 return err <= 1e-4, f"y or y' differs from the exact solution p(x) + sin(w(x-a)) by {err:.3g}"
             for solver, chk in (("solve_ode_bvp", chk_bvp), ("solve_ode_ivp", chk_ivp)):
                 cache.clear()
-                ok = col.check(f"{solver}:rhs-{how}:{label}", chk, inputs={"kind": "rhs-alias", "seed": int(seed), "q": q, "c": cst, "transform": label, "rhs": how})
+                ok = col.check(f"{solver}:rhs-{how}:{label}", limited(chk), inputs={"kind": "rhs-alias", "seed": int(seed), "q": q, "c": cst, "transform": label, "rhs": how})
                 if ok and how == "cached-array" and any(not np.all(v == cst) for v in cache.values()):
                     col.check(f"{solver}:rhs-{how}:{label}", lambda: (False, "the array returned by f (kept by the caller) was modified"),
                               inputs={"kind": "rhs-alias", "seed": int(seed), "transform": label, "rhs": how})
-                if not ok and how == "python-scalar" and "non-broadcastable output operand with shape ()" in str(col.last_failure.get("detail")):
-                    # signature: f returning a Python scalar is converted to a 0-d array which is then updated in place
-                    rec = col.last_failure
-                    already = sum(1 for f in col.failures if f is not rec and f["case_id"].endswith(":known-scalar-rhs-rejected"))
-                    rec["case_id"] += ":known-scalar-rhs-rejected"
-                    if already >= 3:
-                        col.failures[:] = [f for f in col.failures if f is not rec]
 
 
 # ----------------------------------------------------------------------------------------------------------------------
@@ -905,10 +884,8 @@ def helper_contracts(col, seed, reps):
                             return False, (f"at x = {x[i]:.6g} the explicit system returns d^{K}Y/dr^{K} = {got[i]!r} for the exact lower derivatives; "
                                            f"the exact solution has {rj[K][i]!r}")
                         return True, None
-                    ok = col.check(f"_transform_and_rearrange_to_explicit_ode:order{K}:{name}", c_sys,
-                                   inputs={"kind": "helpers", "seed": int(seed), "rep": rep, "transform": name, "K": K, "x": x.tolist(), "problem": prob.describe()})
-                    if not ok:
-                        mark_known(col, tf)
+                    col.check(f"_transform_and_rearrange_to_explicit_ode:order{K}:{name}", c_sys,
+                              inputs={"kind": "helpers", "seed": int(seed), "rep": rep, "transform": name, "K": K, "x": x.tolist(), "problem": prob.describe()})
 
 
 # ----------------------------------------------------------------------------------------------------------------------
